@@ -108,6 +108,46 @@ static void pu_prog()
     pmc_outcome("k=%d ctl=%d b2b=%d", k, from_ctl_task, back_to_back);
 }
 
+// suspend PU k and resume PU k issued by two OS threads without waiting for each other: whatever their order,
+// both calls return and no work is lost (afterwards the PU is resumed once more: the resume may have come first)
+#include <thread>
+static void pu_concurrent_prog()
+{
+    static Ledger L;
+    L = Ledger{};
+    g = &L;
+    int k = pmc_choose(2, 0);
+    pmc_on_stuck(on_stuck);
+    rt::config c;
+    c.workers = 3;
+    c.rp_callback = &pools<true>;
+    rt::start(c);
+    watch_states();
+    auto& pool = pika::resource::get_thread_pool("default");
+    submit(0, k);
+    L.phase = 1;
+    {
+        std::thread ts([&, k] { pool.suspend_processing_unit_direct(k); ++L.calls_returned; });
+        std::thread tr([&, k] { pool.resume_processing_unit_direct(k); ++L.calls_returned; });
+        ts.join();
+        tr.join();
+    }
+    L.phase = 2;
+    submit(1, k);
+    pool.resume_processing_unit_direct(k);
+    ++L.calls_returned;
+    L.phase = 3;
+    submit(2, k);
+    submit(3, -1);
+    ++L.finished;
+    L.phase = 4;
+    rt::stop();
+    PMC_ASSERT(L.finished == 1 && L.calls_returned == 3, "call-did-not-return", "calls returned %d of 3", L.calls_returned);
+    for (int i = 0; i < 4; ++i)
+        PMC_ASSERT(L.entered[i] == 1 && L.left[i] == 1, "task-lost", "task %d (submitted around concurrent suspend/resume of PU %d): entered %d, completed %d", i, k, L.entered[i], L.left[i]);
+    pmc_outcome("k=%d", k);
+}
+
 // a task that was created on worker k's queue is blocked (suspended on an event) while worker k is
 // suspended and resumed; it is released only after the resume.  The suspend call must return all the same,
 // the other worker keeps completing tasks, the blocked task completes after its release.
@@ -292,6 +332,7 @@ int main(int argc, char** argv)
     static const char* focus = "F-addr: the per-worker state words (running/pre_sleep/sleeping) of the pool's scheduler; F-site (stores, rmw, cas): scheduler_base suspend/resume/select_active_pu, (suspend|resume)_processing_unit_*, pool suspend/resume; the pthread mutex/condition variables of sleeping workers are always scheduling decisions";
     static const pmc_spec specs[] = {
         {"pu_suspend_resume", pu_prog, 1, 2, 0.4, 0.4, 1, focus, sites, "src"},
+        {"pu_suspend_resume_concurrent", pu_concurrent_prog, 1, 2, 0.25, 0.15, 1, focus, sites, "src"},
         {"pool_suspend_resume", pool_prog, 1, 2, 0.25, 0.25, 1, focus, sites, "src"},
         {"pool_suspend_after_pu_suspends", pool_after_pu_prog, 0, 1, 0.1, 0.1, 1, focus, sites, "src"},
         {"pu_suspend_with_blocked_task", pu_blocked_prog, 1, 2, 0.2, 0.2, 1, focus, sites, "src"},
